@@ -445,6 +445,78 @@ class Engine:
             outs.extend(self.call(s, f, args, kwargs, self.origin(node), extra))
         return outs
 
+    def _comprehension(self, node, st, build):
+        """list / dict comprehension with one for-clause over a concrete-length iterable (or an opaque one through
+        the world's __comprehension__ hook); comprehension variables do not leak"""
+        from .builtins_model import iter_items
+
+        if len(node.generators) != 1 or node.generators[0].is_async:
+            raise Unsupported("comprehension with several for-clauses")
+        g = node.generators[0]
+        outs = []
+        for s, it in self.ev(g.iter, st):
+            if isinstance(it, Raise):
+                outs.append((s, it))
+                continue
+            if isinstance(it, VOpq):
+                h = self.world.get("__comprehension__")
+                if h is None:
+                    raise Unsupported(f"comprehension over {it!r}")
+                # the element expressions are evaluated for an arbitrary element: what they may raise, the comprehension may raise
+                outs.extend(h(self, s, it, node, self.origin(node)))
+                continue
+            items = iter_items(self, s, it)
+            if items is None:
+                raise Unsupported("comprehension over an iterable of symbolic length")
+            saved = dict(s.frames[-1])
+            work = [(s, [])]
+            for x in items:
+                nxt = []
+                for s1, acc in work:
+                    if isinstance(acc, Raise):
+                        nxt.append((s1, acc))
+                        continue
+                    for o in self.assign(s1, g.target, x):
+                        if o.kind != "normal":
+                            nxt.append((o.st, Raise(o.val)))
+                            continue
+                        conds = [(o.st, True)]
+                        for cnd in g.ifs:
+                            c2 = []
+                            for s2, keep in conds:
+                                for s3, c in self.ev(cnd, s2):
+                                    if isinstance(c, Raise):
+                                        nxt.append((s3, c))
+                                        continue
+                                    for s4, t in self.fork_truth(s3, c):
+                                        c2.append((s4, keep and t))
+                            conds = c2
+                        for s2, keep in conds:
+                            if not keep:
+                                nxt.append((s2, acc))
+                                continue
+                            for s3, vals in self.ev_seq(build, s2):
+                                nxt.append((s3, vals if isinstance(vals, Raise) else acc + [vals]))
+                work = nxt
+            for s1, acc in work:
+                for k in list(s1.frames[-1]):
+                    if k not in saved:
+                        del s1.frames[-1][k]
+                outs.append((s1, acc))
+        return outs
+
+    def ev_ListComp(self, node, st):
+        return [(s, v if isinstance(v, Raise) else s.new_list([x[0] for x in v])) for s, v in self._comprehension(node, st, [node.elt])]
+
+    def ev_DictComp(self, node, st):
+        outs = []
+        for s, v in self._comprehension(node, st, [node.key, node.value]):
+            if isinstance(v, (Raise, V)):
+                outs.append((s, v))
+            else:
+                outs.append((s, s.new_dict({self.hashkey(k): val for k, val in v})))
+        return outs
+
     def ev_quantified(self, is_all, gen, st):
         """all(P(x) for x in it [if C(x)]) / any(...): a conjunction for concrete-length iterables,
         a quantified formula (bound index, explicit array-read triggers) for symbolic ranges / array strings."""
@@ -567,6 +639,10 @@ class Engine:
             ci = self.classes.get(f.name)
             if ci is not None:
                 return self.construct(st, ci, args, kwargs, origin)
+        if isinstance(f, VOpq):
+            h = self.world.get("__callopq__")
+            if h is not None:
+                return h(self, st, f, args, kwargs, origin)
         raise Unsupported(f"call of {f!r} at {origin}")
 
     def bind_args(self, fargs: ast.arguments, args, kwargs, defaults_env, st, origin):
